@@ -6,6 +6,8 @@ Oracle: each identity of the C03_* theorems evaluated on the implementation's ow
 """
 from __future__ import annotations
 
+import os
+
 import numpy as np
 import scipy.sparse as sp
 from scipy.sparse.csgraph import connected_components
@@ -188,6 +190,18 @@ def check_mesh(ctx, name, mesh, fixed, with_model=True):
     glin = al * mesh.sites[:, 0] + be * mesh.sites[:, 1] + c0
     ref = (al * em.directions[:, 0] + be * em.directions[:, 1]) / em.edge_lengths
     r = relerr(G @ glin - ref, np.abs(ref).max() + 1e-300)
+    if not name.startswith("weighted"):
+        # on geometric meshes (every mesh except the one with arbitrary positive weights): the same from the site
+        # coordinates alone, (f_j - f_i) / |r_j - r_i|, and the boundary flux with edge lengths measured between sites
+        Pe = mesh.sites[em.edges[:, 1]] - mesh.sites[em.edges[:, 0]]
+        le = np.linalg.norm(Pe, axis=1)
+        ref_geo = (al * Pe[:, 0] + be * Pe[:, 1]) / le
+        r = max(r, relerr(G @ glin - ref_geo, np.abs(ref_geo).max() + 1e-300))
+        for mb in vectors(rng, nb, k=1):
+            lhs = float(a @ (Bn @ mb))
+            rhs_geo = float(le[em.boundary_edge_indices] @ mb)
+            if abs(lhs - rhs_geo) > 1e-9 * max(float(le[em.boundary_edge_indices] @ np.abs(mb)), 1e-300):
+                fail("boundary_flux_geometric", lhs - rhs_geo)
     ctx.tol("grad linear exact", r, 1e-9)
     if r > 1e-9:
         fail("grad_linear_exact", r)
@@ -303,12 +317,31 @@ def after_smoothing(ctx, name, mesh, fixed, with_model=True):
     return first or f2 or f3
 
 
+def after_reload(ctx, name, mesh, fixed):
+    """the identities hold on a mesh read back from a file (stored in full and stored compressed)"""
+    import h5py
+    from tdgl.finite_volume.mesh import Mesh
+
+    first = None
+    for compress in (False, True):
+        p = os.path.join(str(ctx.work), f"mesh_{name}_{int(compress)}.h5")
+        with h5py.File(p, "w") as f:
+            mesh.to_hdf5(f.create_group("m"), compress=compress)
+        with h5py.File(p, "r") as f:
+            back = Mesh.from_hdf5(f["m"])
+        ctx.count("reloaded_meshes")
+        first = first or check_mesh(ctx, f"{name}:reloaded{'-compressed' if compress else ''}", back, fixed, with_model=False)
+    return first
+
+
 def run(ctx):
     zoo_ = zoo.mesh_zoo(ctx.rng, quick=ctx.quick)
     for name, mesh, fixed in zoo_:
         check_mesh(ctx, name, mesh, fixed)
     for name, mesh, fixed in [z for z in zoo_ if z[0] in ("bar_hole", "random_delaunay", "ring")][: (2 if ctx.quick else 3)]:
         after_smoothing(ctx, name, mesh, fixed)
+    for name, mesh, fixed in [z for z in zoo_ if z[0] in ("bar_hole", "cross4")]:
+        after_reload(ctx, name, mesh, fixed)
     if not ctx.quick:
         for rep in range(6):
             for name, mesh, fixed in zoo.mesh_zoo(ctx.rng, quick=False):
